@@ -5,7 +5,7 @@ import os
 import sys
 import traceback
 
-from .report import Report, VERIF
+from .report import Report, VERIF, EnoughViolations
 
 
 def load_known():
@@ -49,6 +49,8 @@ def main(argv=None):
     rep = Report(prop, tier, seed)
     try:
         mod.run(rep)
+    except EnoughViolations:
+        pass
     except BaseException as ex:
         if isinstance(ex, KeyboardInterrupt):
             raise
